@@ -1627,10 +1627,10 @@ func (x *c01) r3enc() {
 		mark := len(x.R.Obls)
 		if why := x.r3encAppend(fn, rets[0]); why != "" {
 			msg := "the result is " + flow.Expr(rets[0].Results[0]) + ": neither a buffer allocated here with make and filled by index, nor a recognised append form (" + why + ")"
-			if lib, hand := surrogateHandling(fn); lib && !hand {
+			if lib, hand := surrogateHandling(fn); lib && !hand && strings.Contains(why, "append sites feed the result") {
 				// the only thing an encoder can get wrong that the type system does not catch is
 				// the surrogate arithmetic; here that is left to unicode/utf16 and no surrogate
-				// constant appears in the function: an unread way of laying the units out
+				// constant appears in the function: several emission sites (one per plane) is a layout this rule does not read; a single-site form is still judged
 				x.R.OK(c01R3, name+": result buffer", x.pos(rets[0].Pos()), "NOT DECIDED — "+msg+"; surrogate pairs are produced by unicode/utf16 and the function holds no surrogate arithmetic of its own")
 				x.R.Note("C01 R3: %s NOT DECIDED — %s", name, why)
 				n := 0
